@@ -464,6 +464,26 @@ fn opname(op: &Value) -> &str {
     op["op"].as_str().unwrap_or("")
 }
 
+/// TLC continues only one of the paths into a state, so an edge that ends in a clear or a copy may be the only
+/// one with this prior history and has no continuation of its own: every value copied anywhere before position
+/// `k` is copied again (the model says the cleared stack is the empty stack and a copy is its source).
+fn synthetic_copies(path: &[Value], k: usize) -> Vec<Value> {
+    let mut vals: Vec<Value> = vec![];
+    for op in &path[..k] {
+        let vs: Vec<Value> = match opname(op) {
+            "copy" => vec![op["v"].clone()],
+            "extend" | "from_iter" => op["vs"].as_array().cloned().unwrap_or_default(),
+            _ => vec![],
+        };
+        for v in vs {
+            if !vals.contains(&v) {
+                vals.push(v);
+            }
+        }
+    }
+    vals.into_iter().map(|v| json!({"op": "copy", "v": v})).collect()
+}
+
 pub fn replay_edge(edge: &Value, prop: &str, rep: &mut Report) {
     let subj = edge["subj"].as_str().unwrap();
     let path = edge["path"].as_array().unwrap();
@@ -581,6 +601,15 @@ pub fn replay_edge(edge: &Value, prop: &str, rep: &mut Report) {
                 (Some(k), None) => {
                     let mut twin = path.clone();
                     twin[k] = json!({"op": "fresh"});
+                    let mut obs = obs.clone();
+                    if k + 1 == path.len() {
+                        let extra = synthetic_copies(path, k);
+                        let mut ext = path.clone();
+                        ext.extend(extra.iter().cloned());
+                        twin.extend(extra);
+                        let (s2, p1) = run(subj, &ext);
+                        obs = if p1.is_none() { observe(&*s2) } else { json!({"PANIC": p1.map(|p| p.1)}) };
+                    }
                     let (t, p2) = run(subj, &twin);
                     if p2.is_some() {
                         judged = false
@@ -609,7 +638,16 @@ pub fn replay_edge(edge: &Value, prop: &str, rep: &mut Report) {
                         }
                     } else {
                         // original = same path without the copy op
-                        let twin: Vec<Value> = path.iter().enumerate().filter(|(i, _)| *i != k).map(|(_, o)| o.clone()).collect();
+                        let mut twin: Vec<Value> = path.iter().enumerate().filter(|(i, _)| *i != k).map(|(_, o)| o.clone()).collect();
+                        let mut obs = obs.clone();
+                        if k + 1 == path.len() {
+                            let extra = synthetic_copies(path, k);
+                            let mut ext = path.clone();
+                            ext.extend(extra.iter().cloned());
+                            twin.extend(extra);
+                            let (s2, p1) = run(subj, &ext);
+                            obs = if p1.is_none() { observe(&*s2) } else { json!({"PANIC": p1.map(|p| p.1)}) };
+                        }
                         let (t, p2) = run(subj, &twin);
                         if p2.is_some() {
                             judged = false
